@@ -22,6 +22,8 @@ const stringAxioms = `
 (assert (forall ((a Str) (b Str) (k Int)) (! (=> (and (<= (len a) k) (< k (+ (len a) (len b)))) (= (at (cat a b) k) (at b (- k (len a))))) :pattern ((at (cat a b) k)))))
 (assert (forall ((c Int)) (! (=> (and (<= 0 c) (< c 128)) (and (= (len (chr c)) 1) (= (at (chr c) 0) c))) :pattern ((chr c)))))
 (assert (forall ((c Int)) (! (=> (not (and (<= 0 c) (< c 128))) (and (>= (len (chr c)) 2) (<= (len (chr c)) 4) (>= (at (chr c) 0) 128))) :pattern ((chr c)))))
+(assert (forall ((h (Array Addr Int)) (b Slice)) (! (= (len (bytes2str h b)) (slen b)) :pattern ((bytes2str h b)))))
+(assert (forall ((h (Array Addr Int)) (b Slice) (k Int)) (! (=> (and (<= 0 k) (< k (slen b))) (= (at (bytes2str h b) k) (select h (selem b k)))) :pattern ((at (bytes2str h b) k)))))
 (assert (forall ((s Str)) (! (>= (len s) 0) :pattern ((len s)))))
 (assert (forall ((s Str) (k Int)) (! (and (<= 0 (at s k)) (<= (at s k) 255)) :pattern ((at s k)))))
 `
@@ -156,7 +158,7 @@ func (w *World) buildQuery(o *Obligation, g *Gen, uses []string) string {
 	sb.WriteString(basePrelude)
 	sb.WriteString(w.structDecls(nil))
 	sb.WriteString(w.strlitDecls(func(n string) bool { return all[n] }))
-	if all["substr"] || all["cat"] || all["chr"] {
+	if all["substr"] || all["cat"] || all["chr"] || all["bytes2str"] {
 		sb.WriteString(stringAxioms)
 	}
 	// uninterpreted functions for trusted pure callees
@@ -339,13 +341,28 @@ type job struct {
 	light string // same goal with only the quantifier-free, spec-function-free hypotheses
 }
 
-func lightHyps(hyps []string) []string {
+// lightHyps keeps the quantifier-free hypotheses that mention no defined (possibly recursive) spec function;
+// uninterpreted spec functions (ghost fields) are harmless and stay.
+func (w *World) lightHyps(hyps []string) []string {
 	var out []string
 	for _, h := range hyps {
-		if strings.Contains(h, "spec_") || strings.Contains(h, "(forall ") || strings.Contains(h, "(exists ") {
+		if strings.Contains(h, "(forall ") || strings.Contains(h, "(exists ") {
 			continue
 		}
-		out = append(out, h)
+		bad := false
+		if strings.Contains(h, "spec_") {
+			for t := range tokensOf(h) {
+				if strings.HasPrefix(t, "spec_") {
+					if sf, ok := w.specs[t[5:]]; !ok || sf.Body != nil {
+						bad = true
+						break
+					}
+				}
+			}
+		}
+		if !bad {
+			out = append(out, h)
+		}
 	}
 	return out
 }
@@ -361,7 +378,7 @@ func (w *World) discharge(jobs []*job, timeoutS, workers, nsolvers int, keepDir 
 		j.query = w.buildQuery(j.o, j.g, j.uses)
 		j.o.Query = j.query
 		if !j.o.Cover && !strings.Contains(j.o.Goal, "spec_") && !strings.Contains(j.o.Goal, "(forall ") {
-			lh := lightHyps(j.o.Hyps)
+			lh := w.lightHyps(j.o.Hyps)
 			if len(lh) < len(j.o.Hyps) {
 				saved := j.o.Hyps
 				j.o.Hyps = lh
